@@ -81,6 +81,13 @@ def property_theorems(pid):
     return n_thm, problems, out
 
 
+def coqchk(pid, timeout=1200):
+    """independent re-check of the compiled property file and everything it depends on (thorough tier)"""
+    rc, out = sh(["timeout", str(timeout), "coqchk", "-o", "-silent", "-Q", "theories", "IT", "IT.Properties." + pid], cwd=COQ)
+    ok = rc == 0 and "* Axioms: <none>" in out and "type-in-type: <none>" in out and "unsafe (co)fixpoints: <none>" in out and "positivity is assumed: <none>" in out
+    return ok, out[-1200:]
+
+
 def known_findings():
     out = {"finding": [], "fixed": []}
     p = os.path.join(VERIF, "known_findings.txt")
@@ -159,8 +166,9 @@ class Report(object):
         cov.update(self.extra)
         ev = {"property_id": self.pid, "tier": self.tier, "seed": self.seed, "level": self.level, "coverage": cov,
               "assumptions": self.assumptions, "wall_s": round(time.time() - self.t0, 2), "violations": len(self.violations)}
-        os.makedirs(EVID, exist_ok=True)
-        json.dump(ev, open(os.path.join(EVID, self.pid + ".json"), "w"), indent=1, default=str)
+        if not getattr(self, "no_evidence", False):
+            os.makedirs(EVID, exist_ok=True)
+            json.dump(ev, open(os.path.join(EVID, self.pid + ".json"), "w"), indent=1, default=str)
         for k in self.known:
             print("KNOWN-FINDING: property=%s %s" % (self.pid, k))
         for path, found in self.violations:
